@@ -12,7 +12,8 @@ class Z3H:
         self.S = z3.Function("S", z3.RealSort(), z3.RealSort())
         self.Cf = z3.Function("C", z3.RealSort(), z3.RealSort())
         self.ufs = {}
-        self.side = [self.S(z3.RealVal(0)) == 0, self.Cf(z3.RealVal(0)) == 1]   # defining constraints of auxiliary symbols (sqrt, trig identities); sin 0 = 0, cos 0 = 1
+        self.side = []          # defining constraints of auxiliary symbols (sqrt, trig identities)
+        self._trig0 = False
         self.domain = []        # domain side conditions (radicand >= 0, denominator != 0): assumed, and reported
         self._sqrt, self._trig, self._div, self.n = {}, {}, {}, 0
 
@@ -47,6 +48,10 @@ class Z3H:
         for (ee, sc) in self._trig.get(k, []):
             if ee.eq(e):
                 return sc
+        if not self._trig0:
+            # sin 0 = 0, cos 0 = 1 (added only when trigonometric symbols occur at all: a query without uninterpreted functions stays pure QF_NRA for nlsat)
+            self._trig0 = True
+            self.side += [self.S(z3.RealVal(0)) == 0, self.Cf(z3.RealVal(0)) == 1]
         s, c = self.S(e), self.Cf(e)
         self._trig.setdefault(k, []).append((e, (s, c)))
         self.side.append(s * s + c * c == 1)
